@@ -7,17 +7,20 @@ META = dict(
     level="model_checking",
     bounds=dict(
         quick="histories of K=5 operations on a fresh Budget (max_retries in [0,3], window_s a solver real > 0), each "
-              "consume(cost in {1,2}) or remaining(), each preceded by a solver-real clock advance >= 0; policy level: 3 "
+              "consume(cost in {1,2}) or remaining(), each preceded by a solver-real clock advance >= 0; inductive step harness "
+              "(histories of ANY length): one operation from an arbitrary state satisfying the representation invariant "
+              "(<= max_retries sorted events of arbitrary real ages, max_retries in [0,3]) must answer correctly and "
+              "re-establish the invariant; policy level: 3 "
               "always-failing calls alternating between two Retry/AsyncRetry objects sharing one Budget (max_retries in "
               "[0,2]), max_attempts 2, solver-real gaps between calls and sleeper overshoots",
         thorough="K=7; 4 policy calls with max_attempts 3",
     ),
     assumptions=["floats as reals; a grant made at instant g occupies the half-open interval [g, g + window_s)",
                  "single-threaded use (C17 covers interleavings)"],
-    outside=["histories longer than K", "consume(cost) with cost > 2"],
+    outside=["max_retries > 3 (4 thorough) in the step harness", "consume(cost) with cost > 2"],
 )
 GOALS = ["refused_when_full", "granted_after_age_out", "boundary_age_equal_window", "cost2_granted", "cost2_refused_partial_room",
-         "remaining_checked", "policy_budget_exhausted", "policy_retry_after_age_out"]
+         "remaining_checked", "policy_budget_exhausted", "policy_retry_after_age_out", "step_grant_after_age_out", "step_refusal"]
 
 
 def window_ok(grants, window, cap):
@@ -132,6 +135,64 @@ def h_policy(sym, params):
     return None
 
 
+def h_step(sym, params):
+    """Inductive step (histories of ANY length): from an arbitrary state satisfying the representation invariant
+    (events sorted, len <= max_retries, none later than the clock), one operation must answer correctly and
+    re-establish the invariant.  The empty budget satisfies the invariant, so by induction every reachable state does.
+    Grants that were already pruned are <= (last prune instant - window) and can never share a window with a
+    future grant, so the deque itself is a sufficient ghost history."""
+    cap = sym.int("max_retries", 0, params["cap"])
+    window = sym.real("window", lo=0)
+    sym.assume(window > 0)
+    k = sym.int("k", 0, params["cap"])
+    sym.assume(k <= cap)
+    ev = []
+    t = sym.real("e0", lo=0)
+    for i in range(params["cap"]):
+        if i < k:
+            ev.append(t)
+            t = t + sym.real(f"gap{i}", lo=0)
+    clock = env.Clock(t + sym.real("since_last", lo=0))
+    op = ["consume1", "consume2", "remaining"][params["pin_op"]] if "pin_op" in params else sym.choice("op", ["consume1", "consume2", "remaining"])
+    with env.patched(clock):
+        b = Budget(max_retries=cap, window_s=window)
+        for e in ev:
+            b._events.append(e)
+        now = clock.now
+        live = [g for g in ev if now - g < window]
+        if op == "remaining":
+            r = b.remaining()
+            exp = cap - len(live)
+            if exp < 0:
+                exp = 0
+            if r != exp:
+                return ("step:remaining", f"remaining()={r} with {len(live)} live grants, max_retries {cap}")
+        else:
+            cost = 1 if op == "consume1" else 2
+            ok = b.consume(cost)
+            room = len(live) + cost <= cap
+            if ok and not room:
+                return ("step:over_grant", f"consume({cost}) granted with {len(live)} live grants of {ev} at {now}, max_retries {cap}")
+            if not ok and room:
+                return ("step:unjustified_refusal", f"consume({cost}) refused with {len(live)} live grants, max_retries {cap}")
+            sym.cover("step_grant_after_age_out", ok and len(live) < len(ev))
+            sym.cover("step_refusal", not ok)
+        post = list(b._events)
+        if len(post) > cap:
+            return ("step:invariant_len", f"{len(post)} events kept with max_retries {cap}")
+        for i in range(len(post) - 1):
+            if post[i] > post[i + 1]:
+                return ("step:invariant_sorted", f"events not sorted: {post}")
+        for g in post:
+            if g > now:
+                return ("step:invariant_future", f"event {g} later than the clock {now}")
+        # every grant that can still share a window with a future grant must have been kept
+        for g in live:
+            if g not in post:
+                return ("step:live_grant_dropped", f"grant at {g} is still inside the window at {now} but was pruned")
+    return None
+
+
 def jobs(tier):
     q = tier == "quick"
     K = 5 if q else 7
@@ -141,6 +202,9 @@ def jobs(tier):
         for b_ in range(3):
             out.append(dict(name=f"hist:K={K}:{a},{b_}", harness="rv.props.c10:h_hist", params=dict(K=K, pin_ops=[a, b_]),
                             max_wall_s=wall, weight=3))
+    for o in range(3):
+        out.append(dict(name=f"step:op={o}", harness="rv.props.c10:h_step", params=dict(cap=3 if q else 4, pin_op=o),
+                        max_wall_s=wall, weight=2))
     for a in (False, True):
         out.append(dict(name=f"policy:{'async' if a else 'sync'}", harness="rv.props.c10:h_policy",
                         params={"async": a, "calls": 3 if q else 4, "max_attempts": 2 if q else 3}, max_wall_s=wall, weight=4))
